@@ -1,9 +1,21 @@
-"""C17 — attribution is observation-only (first sentence of the property).
+"""C17 — attribution is observation-only and truthful about tokens.
 
-Non-interference (E7): with source = the `attribute` parameter of decoder / encoder, the string
-projection of the returned value (the plain return, and component 0 of the returned pair) is untainted,
-explicit and implicit flows included.
-Not decided: truthfulness of the reported indices/tokens (offset arithmetic).
+NI  non-interference (E7): with source = the `attribute` parameter of decoder / encoder, the string
+    projection of the returned value (the plain return, and component 0 of the returned pair) is untainted,
+    explicit and implicit flows included.
+Truthfulness, decoder direction (rules/attrib.py; ghost counters + inferred relational loop invariants):
+TI1-TI4  input positions: the reader reports what it took, the derivation returns exactly the number of symbols
+    consumed and stops only at exhaustion / budget, decoder() offsets each fragment by the sum of the earlier
+    counts, every Attribution pairs index and symbol of one enumerate item plus the unmodified offset
+TC1 coverage: every atom / bond created is attributed to (enclosing branch symbols) + [its own symbol]
+TO1-TO2  output positions: AttributionMap index == characters written - 1 + offset right after the token was
+    appended, attribution taken from the object the token prints; fragment offsets include the separators
+Truthfulness, encoder direction (token identity only):
+TE1 every atom symbol is reported with the attribution stored for the atom it prints
+TE2 the SMILES parser stores, for each atom, the text of the token the atom was parsed from
+TE3 the graph's attribution store returns what was filed under the same object; add_attribution is its only writer
+Not decided: the *position* numbers on the encoder side (the statement fixes no counting convention for SMILES tokens
+and the tree's own convention is irregular: 'C.O', 'C=1CCCCC=1O'), see DESIGN.md.
 """
 import ast
 
@@ -16,13 +28,21 @@ META = {
     "explanation": "Interprocedural, field-based taint analysis with implicit flows over the code reachable from decoder() "
                    "and encoder(): the attribute flag is the source; the string the API returns (in both arms of the final "
                    "'tuple or string' selection) is the sink. Because the analysis is flow-insensitive and covers all "
-                   "paths and callees, an untainted sink means the string cannot depend on the flag for any input.",
+                   "paths and callees, an untainted sink means the string cannot depend on the flag for any input. "
+                   "Truthfulness of the decoder's positions is decided by abstract interpretation with ghost counters "
+                   "(symbols taken from the iterator, characters appended to the output list): the engine infers the "
+                   "relational loop invariants (counter - ghost == const) and every reported position must be entailed "
+                   "equal to the ghost expression on every path; coverage and token identity are pairing rules over the "
+                   "per-path event sequences.",
     "trusted_base": ["light type inference for class-qualified fields", "external calls: result depends on all arguments and the receiver"],
     "assumptions": [],
-    "level_text": "Static non-interference proof for 'requesting attribution never changes the translation'; covers all inputs.",
-    "level_note": "Claims only the observation-only clause. Truthfulness of indices/tokens is value-level arithmetic and is not "
-                  "decided (listed as unclaimed in DESIGN.md §7).",
-    "technique": "interprocedural taint / non-interference analysis with implicit flows",
+    "level_text": "Static non-interference proof for 'requesting attribution never changes the translation', and static proof "
+                  "(abstract interpretation, all paths) that the decoder's reported input positions, output indices and "
+                  "coverage are exact; token identity on the encoder side.",
+    "level_note": "Encoder-side position numbers are not decided (no counting convention is stated for SMILES tokens). The "
+                  "proof is modulo the modelled semantics of next()/enumerate/list.append and the role identification "
+                  "printed in the evidence.",
+    "technique": "interprocedural taint / non-interference analysis + abstract interpretation with ghost counters and inferred relational loop invariants",
 }
 
 
@@ -95,3 +115,21 @@ def run(ctx, rep):
         if len(T.t) < 4:
             raise AnalysisError("attribute flag of %s taints almost nothing (%d locations): source anchor lost" % (api, len(T.t)))
     rep.floor("NI", 2)
+    truthfulness(ctx, rep)
+
+
+def truthfulness(ctx, rep):
+    from rules import attrib, decmodel
+    roles = attrib.attrib_roles(ctx, dict(decmodel.find_roles(ctx)))
+    summ = attrib.reader_summary(ctx, rep, roles["index_reader"], "TI1")
+    h, fr, n_attr = attrib.check_derivation(ctx, rep, roles, summ, "TI2", "TI4", "TC1")
+    attrib.check_coverage(ctx, rep, roles, h, "TC1")
+    attrib.check_fragment_offsets(ctx, rep, roles, "TI3")
+    wr = attrib.check_writer(ctx, rep, "TO1", "TO2")
+    attrib.check_encoder_tokens(ctx, rep, "TE1")
+    attrib.check_parser_attribution(ctx, rep, "TE2")
+    attrib.check_graph_store(ctx, rep, "TE3")
+    for rule, fl in (("TI1", 1), ("TI2", 2), ("TI3", 3), ("TI4", 3), ("TC1", 3), ("TO1", 1), ("TO2", 1), ("TE1", 2), ("TE2", 1), ("TE3", 3)):
+        rep.floor(rule, fl)
+    rep.analysed.update({"derivation": roles["D"].qual, "index_reader": roles["index_reader"].qual, "writer": wr["W"].qual,
+                         "attribution_constructions_checked": n_attr})
